@@ -453,7 +453,8 @@ pub fn run_seq(sc: &SeqScenario) -> Outcome {
         }
         if let Some(visited) = &sc.reach {
             // replays (tracing on) are never pruned, so violations reproduce
-            if w(|w| w.viol.is_empty()) && !explorer::tracing() {
+            // states along the replayed prefix are re-visits by construction
+            if w(|w| w.viol.is_empty()) && !explorer::tracing() && explorer::past_prefix() {
                 let key = canon(&pool, &tasks, closes);
                 let mut v = visited.lock().unwrap();
                 match v.get(&key) {
@@ -469,6 +470,9 @@ pub fn run_seq(sc: &SeqScenario) -> Outcome {
                 break;
             }
         }
+    }
+    if sc.reach.is_some() && !pruned && steps >= sc.depth && w(|w| w.viol.is_empty()) {
+        explorer::flag_cap("reachability horizon reached before the history met a known state: closure not established");
     }
     if pruned {
         // somebody else expands this state: clean up without judging anything
